@@ -21,6 +21,39 @@ CLAIMED = {
         'Trusted: the brute-force evaluator and trace replayer in props/c15_sat.py (self-tested at start), the kernel '
         'checker for the Tseitin theorem. sat/zchaff.py (external binary) is not covered.',
         'DESIGN.md §2 C15'),
+    'C01': (
+        'Hypothesis-driven derivation builder over the 15 primitive rules; every accepted line evaluated in finite '
+        'standard models by an independent evaluator (counter-model search) and type-checked by a reference checker',
+        'Exploration. Thousands of proof scripts of 3-12 (quick) / 3-22 (thorough) accepted primitive steps with fitted '
+        'and adversarial arguments are run through theory.check_proof(no_gaps=True); every intermediate and final '
+        'sequent must type-check in the reference calculus and survive a search for a refuting finite standard model '
+        '(type variables of size <=2, thorough <=3; all assignments of free and schematic variables up to 20000, '
+        'sampled beyond). A refuting model is a certain counterexample to validity; absence of one is not a proof.',
+        'Trusted: vlib/ref.py and vlib/model.py (self-tested on all logic_base theorems and on known-invalid sequents at '
+        'start). Finite models only; Some/The by one admissible choice function.',
+        'DESIGN.md §2 C01'),
+    'C02': (
+        'enumeration of small proof shapes + Hypothesis random/fitted proof objects and extension pairs against a '
+        'position-based reference judge and a finite-model validity oracle',
+        'Exploration. Proof objects are built directly (lying identifiers, forward/circular/into-block citations, '
+        'stated sequents weaker/stronger/different, placeholders at every depth including inside macro expansions) and '
+        'given to theory.check_proof with gaps allowed and disallowed; acceptance must imply acceptance by the reference '
+        'judge with the same final sequent and the same gap multiset, and a gap-free acceptance must yield a sequent '
+        'valid in finite models. Theory.checked_extend is checked on (statement, proof) pairs. Bounded enumeration of '
+        'tiny shapes is complete in the thorough tier; beyond that the search is random.',
+        'Trusted: the reference judge in props/c02_checker.py (self-tested), single-step rule functions of the kernel '
+        '(their soundness is C01), vlib/model.py. compute_only mode is out of scope.',
+        'DESIGN.md §2 C02'),
+    'C03': (
+        'Hypothesis pairs / triples / operation cases / creation-and-GC histories against an independent named-term '
+        'lambda calculus (alpha-equivalence, capture-avoiding substitution, beta normal form) and finite-model denotations',
+        'Exploration. ==, hash, fast_compare, copy and Term(...) are compared with reference alpha-equivalence on '
+        'near-miss pairs; histories of construction, parsing, copying, dropping, garbage collection and allocation bursts '
+        'are interpreted step by step with the verdict of every comparison checked against snapshots; subst_type, subst, '
+        'Lambda, subst_bound, beta_conv, beta_norm, incr_boundvars are compared with the reference implementation, typed, '
+        'and evaluated in finite models.',
+        'Trusted: vlib/ref.py, vlib/model.py (self-tested). Address reuse is CPython-specific.',
+        'DESIGN.md §2 C03'),
 }
 
 NOT_YET = {
